@@ -214,7 +214,7 @@ func (f *c15File) text(perm func(n int) []int) string {
 	return b.String()
 }
 
-var c15BenchNames = []string{"Encode", "Decode", "Sort/size=1", "Sort/size=10", "Sort/size=100", "Sort/size=1Ki", "Sort/size=1010", "Sort/size=8Ki", "Sort/size=8100", "Sort/size=1k", "Hash/size=1/align=0", "Hash/size=1/align=1", "Hash/size=10/align=0", "Walk", "Fib-8", "Fib-16", "Sort/size=1-8", "Pair/a=1k/b=1000", "Pair/a=1000/b=1k", "Pair/a=1k/b=1k", "Pair/a=1e3/b=1000", "Pair/a=2/b=1Ki", "Pair/a=2/b=1024"}
+var c15BenchNames = []string{"Encode", "Decode", "Sort/size=1", "Sort/size=10", "Sort/size=100", "Sort/size=1Ki", "Sort/size=1010", "Sort/size=8Ki", "Sort/size=8100", "Sort/size=1k", "Hash/size=1/align=0", "Hash/size=1/align=1", "Hash/size=10/align=0", "Walk", "Fib-8", "Fib-16", "Sort/size=1-8", "Sort/size=20.1.1", "Sort/size=3", "Sort/size=20", "Sort/size=v2", "Pair/a=1k/b=1000", "Pair/a=1000/b=1k", "Pair/a=1k/b=1k", "Pair/a=1e3/b=1000", "Pair/a=2/b=1Ki", "Pair/a=2/b=1024"}
 var c15Units = []string{"ns/op", "B/op", "allocs/op", "MB/s", "widgets", "ns/frob", "ns/MB", "sec/MB", "MB/ns", "B/ns", "sec/op", "B/s"}
 
 func c15GenFiles(T *sim.Tape) []*c15File {
